@@ -25,6 +25,7 @@ if __name__ == "__main__":  # maintainer switch `/venv/bin/python harness/props/
 
     sys.path.insert(0, os.path.dirname(os.path.dirname(os.path.abspath(__file__))))
 
+import ro_calls as RO
 from common import BIN, impl_error
 from props import hytera_tables as HT
 
@@ -430,6 +431,53 @@ class World:
         hd = self.h[name]
         self.pairs.append((f"state {name}", self.state(hd)))
 
+    def ro_roots(self):
+        return {n: o.h for n, o in self.h.items()}
+
+    def ro(self, name, spec):
+        """round 6: one observer-style call (harness/ro_calls.py) on the handler `name` or on a library object reachable from it.
+        `spec` is a call of the catalogue, or a number: that entry of the catalogue the live handler offers NOW (the script
+        records the call it became).  Not a datagram: no model line, nothing may be sent, the deep picture of EVERY live
+        handler (class and module data included) and the transports must be what they were."""
+        hd = self.h[name]
+        roots = self.ro_roots()
+        if isinstance(spec, int):
+            cat = RO.all_specs({name: hd.h}, RO_POOLS, RO_ARGS_RNG(spec))
+            spec = cat[spec % len(cat)]
+        spec = list(spec)
+        self.script.append(("ro", name, spec))
+        try:
+            obj = RO.resolve(spec[0], roots)
+        except Exception:  # noqa: that object does not exist in this state
+            self.ctx.count("read-only-call:no-such-object")
+            return
+        text = RO.spec_text(spec)
+        others = [o.h for n, o in self.h.items() if n != name]
+        fps = {n: self.fingerprint(o) for n, o in self.h.items()}
+        del self.log[:]
+        s0 = RO.snapshot(roots)
+        answer, _ = RO.perform(obj, spec, other=others[0] if others else None)
+        s1 = RO.snapshot(roots)
+        self.ctx.count("read-only-call:" + (spec[2] if spec[1] == "proto" else "call:" + spec[2]))
+        self.ctx.count("read-only-call-answer:" + answer)
+        if s0 != s1:
+            self.fail("read-only-call", f"the read-only call {text} (answer: {answer}) changed the state of a handler", expected="nothing changes", actual=RO.first_diff(s0, s1))
+        elif fps != {n: self.fingerprint(o) for n, o in self.h.items()}:
+            self.fail("read-only-call", f"the read-only call {text} (answer: {answer}) changed a handler's connected flag / S/N / registry / configuration / transport")
+        if self.log:
+            self.fail("read-only-call", f"the read-only call {text} (answer: {answer}) sent something", expected=[], actual=[o.hex() for _, o, _ in self.log])
+
+    def ro_final(self):
+        """the look through every observer of every handler at the end of a history (masked: wall-clock readings are not state)"""
+        roots = self.ro_roots()
+        fps = {n: self.fingerprint(o) for n, o in self.h.items()}
+        del self.log[:]
+        final, specs, changed = RO.checked_sweep(roots, RO_POOLS, 5 + sum(1 for op in self.script if op[0] != "ro"))
+        if not changed and (self.log or fps != {n: self.fingerprint(o) for n, o in self.h.items()}):
+            changed = "something was sent / a transport or flag changed"
+        self.sweep_changed = (changed, specs) if changed else None
+        return final
+
     def rx(self, name, dg, addr=ADDR_A):
         hd = self.h[name]
         h = hd.h
@@ -467,6 +515,15 @@ class World:
         return ret, outs
 
 
+RO_POOLS = {"msg": ["status", "%s %d", ""], "exc": [None]}
+
+
+def RO_ARGS_RNG(k):
+    import random
+
+    return random.Random(k)
+
+
 _LOOP = None
 
 
@@ -495,7 +552,9 @@ def one_tick(h):
 def script_json(script):
     out = []
     for op in script:
-        if op[0] == "rx":
+        if op[0] == "ro":
+            out.append(["ro", op[1], json.loads(json.dumps(op[2]))])
+        elif op[0] == "rx":
             out.append(["rx", op[1], op[2].json(), list(op[3])])
         else:
             out.append(list(op))
@@ -1308,6 +1367,181 @@ def run_tables(ctx, pairs, flush, enough):
     flush("hstrp.tables")
 
 
+# ------------------------------------------------------------------------------------------------
+# round 6: read-only calls interleaved into scripts (harness/ro_calls.py).  The random scripts of `random_world` (1-4 live handlers,
+# datagrams from varying senders, connection / configuration / maintenance events) run twice in fresh worlds: as they are, and with
+# observer-style calls on the handlers (repr / str / == / hash / copy / reading every attribute, get_logger, the log_* helpers, and
+# whatever get_* / is_* / has_* / debug a change adds; also on every library object reachable from a handler) between the
+# operations.  Each call is checked where it is made (World.ro); the implementation's answers to every operation, the final states
+# and a final sweep through the whole catalogue must be identical in both runs; the MODEL is driven with the script without the
+# calls and compared with the answers of the run WITH them.
+
+
+class RoSink:
+    """collects what a world reports instead of reporting it"""
+
+    def __init__(self, ctx=None):
+        self.failures = []
+        self.ctx = ctx
+
+    def fail(self, kind, input, what, expected=None, actual=None):
+        self.failures.append({"kind": kind, "input": input, "what": what, "expected": expected, "actual": actual})
+
+    def count(self, key, n=1):
+        if self.ctx is not None and key.startswith("read-only"):
+            self.ctx.count(key, n)
+
+    def case(self, *a, **k):
+        pass
+
+
+def ro_interleave(rng, script, density=0.12):
+    """observer-style calls between the operations of a script (numbers: entries of the live catalogue, rotating with the seed)"""
+    names = [op[1] for op in script if op[0] == "new"]
+    out, made = [], 0
+    for i, op in enumerate(script):
+        out.append(op)
+        if op[0] == "new":
+            continue
+        live = [n for n in names if any(o[0] == "new" and o[1] == n for o in out)]
+        if live and (rng.random() < density or (made == 0 and i >= len(script) // 2)):
+            for _ in range(rng.randrange(1, 3)):
+                out.append(("ro", rng.choice(live), rng.getrandbits(30)))
+                made += 1
+    return out
+
+
+def ro_run(script, ctx=None):
+    """one script in a fresh world: (implementation answers, final sweep, what the world reported, the script as it ran)"""
+    sink, pairs = RoSink(ctx), []
+    w = World(sink, pairs)
+    Clock.offset = 0.0
+    try:
+        run_script(w, script)
+        final = w.ro_final()
+    except SkipHistory:
+        final = None
+    except (KeyError, AssertionError):  # a shortened script that uses a handler it no longer creates
+        final = "inapplicable"
+    finally:
+        Clock.offset = 0.0
+    ran = list(w.script)
+    if getattr(w, "sweep_changed", None):
+        # the sweep made every call of the catalogue: as explicit operations they are checked one by one
+        changed, specs = w.sweep_changed
+        sink.failures.append({"kind": "read-only-call", "what": "the final look through every observer-style call changed the state of a handler", "expected": "nothing changes", "actual": changed})
+        ran += [("ro", sp[0][0], sp) for sp in specs]
+    return pairs, final, sink.failures, ran
+
+
+def ro_verdicts(plain, with_calls, ctx=None, sweep=True):
+    """what the read-only class finds: [(what, expected, actual)], the pairs of the run with the calls, the script as it ran"""
+    pa, fa, _, _ = ro_run(plain)
+    pb, fb, failures, ran = ro_run(with_calls, ctx)
+    if "inapplicable" in (fa, fb):
+        return [], pb, ran
+    out = [(f["what"], f["expected"], f["actual"]) for f in failures if f["kind"] == "read-only-call" and (sweep or not f["what"].startswith("the final look"))]
+    a, b = [x[1] for x in pa], [x[1] for x in pb]
+    if a != b:
+        d = next((i for i, (x, y) in enumerate(zip(a, b)) if x != y), min(len(a), len(b)))
+        out.append((f"operations are answered differently when read-only calls are made in between (first difference at operation {d}: {pa[d][0][:60] if d < len(pa) else 'end'})",
+                    a[d] if d < len(a) else None, b[d] if d < len(b) else None))
+    if fa != fb:
+        out.append(("after read-only calls were made in between, the final state / what the observers answer at the end differs from the run without them",
+                    "as without the calls", RO.first_diff(fa, fb) if fa is not None and fb is not None else "no sweep"))
+    return out, pb, ran
+
+
+def run_read_only(ctx, pairs, flush, enough):
+    import random
+
+    rng = random.Random(f"C17:ro:{ctx.seed}")
+    shrunk = 0
+    for i in range(90 if not ctx.thorough() else 700):
+        if enough():
+            break
+        sink = RoSink()
+        try:
+            w, length, cfgs = random_world(sink, rng, [], 4 * i + i % 4 if i % 3 else i)
+        except SkipHistory:
+            continue
+        finally:
+            Clock.offset = 0.0
+        if sink.failures:
+            continue  # fails by itself: the ordinary sections report it
+        plain = list(w.script)
+        with_calls = ro_interleave(rng, plain)
+        verdicts, pb, ran = ro_verdicts(plain, with_calls, ctx)
+        ctx.case(("read-only", i, len(with_calls)), sample={"class": "read-only calls interleaved", "operations": len(plain), "read_only_calls": len(with_calls) - len(plain)} if i == 1 else None)
+        ctx.count("read-only:scripts")
+        ctx.count("read-only:calls", len(with_calls) - len(plain))
+        if not verdicts:
+            pairs.extend(pb)  # the model answers the script without the calls; the implementation answered it with them
+            if len(pairs) > 300000:
+                flush("hstrp.read-only")
+            continue
+        ctx.count("read-only:failing-scripts")
+        if shrunk < 4:
+            shrunk += 1
+
+            def test(cand):
+                return any(o[0] == "ro" for o in cand) and bool(ro_verdicts([o for o in cand if o[0] != "ro"], cand, sweep=False)[0])
+
+            small = RO.ddmin(ran, test, max_runs=150)
+            again, _, ran2 = ro_verdicts([o for o in small if o[0] != "ro"], small, sweep=False)
+            if again:
+                verdicts, ran = again, ran2
+                ctx.count("read-only:failing-script-shortened")
+        elif shrunk >= 24:
+            continue
+        else:
+            shrunk += 1
+        for what, exp, act in verdicts[:2]:
+            ctx.fail("read-only-call", {"script": script_json(ran)}, what + f" [script of {len(ran)} operations]", expected=exp, actual=act)
+    flush("hstrp.read-only")
+    sk = []
+    for kind in KINDS:
+        try:
+            RO.all_specs({"A": construct(kind, False, 50000, 0)}, RO_POOLS, skipped=sk)
+        except Exception:  # noqa
+            pass
+    for what in sorted(set(sk)):
+        ctx.count("read-only:not-called:" + what[:110])
+    if RO.no_exclusions():
+        ctx.notes.append("VERIF_RO_NOEXCLUDE is set: the reviewed exclusions of harness/ro_calls.py are void in this run (review mode)")
+
+
+# round 6, class B: near-collisions in every identity ingredient, systematically.  Radios: the same 24-bit radio id in two subnets
+# (10.0.0.100 / 11.0.0.100), the neighbouring id, the same low octet with another middle octet; senders: one address, the same IP with
+# another port (NAT rebinding), another host; sequence numbers: all different / all the same (same S/N, different content, consecutive).
+# Every sequence up to length 3 over {registration, going-offline} x 4 radios + {connect, close, heartbeat} x 3 senders, the sender of
+# the RRS messages rotating with the position - on a passive and an active RRS handler.  (Registry per radio ADDRESS, connected flag =
+# last connect / close whoever sent it, one acknowledgement with the message's S/N - the ordinary oracle and the model decide.)
+ID_RADIOS = [(10, 0, 0, 100), (11, 0, 0, 100), (10, 0, 0, 101), (10, 0, 1, 100)]
+ID_SENDERS = [ADDR_A, (ADDR_A[0], 30002), ADDR_B]
+
+
+def run_identity(ctx, pairs, flush):
+    for variant, active in ((0, False), (1, True)):
+        syms = []
+        k = 0
+        for radio in ID_RADIOS:
+            for op in (3, 1):
+                k += 1
+                dg = hstrp(0x20, sn=7 if variant else 0x100 + k, opts=OPTS, rrs=(op, radio))
+                syms.append((f"rrs{op}:{'.'.join(map(str, radio))}", sym_rx("A", dg, ID_SENDERS[k % 3]), True))
+        for ai, addr in enumerate(ID_SENDERS):
+            for name, tb in (("connect", 0x04), ("close", 0x08), ("heartbeat", 0x02)):
+                syms.append((f"{name}@{ai}", sym_rx("A", hstrp(tb, sn=0 if tb == 0x02 else (7 if variant else 0x200 + ai)), addr), True))
+        try:
+            w = make_world(ctx, pairs, ("rrs", active, True, 50000, variant), (bool(variant), 0))
+        except SkipHistory:
+            continue
+        n = dfs(ctx, w, syms, 3, flush, ("identity", variant))
+        ctx.count(f"exhaustive-identity:{'same-sn' if variant else 'distinct-sn'}:{'active' if active else 'passive'}:len<=3", n)
+    flush("hstrp.identity")
+
+
 def run(ctx):
     global L
     saved = {}
@@ -1357,6 +1591,7 @@ def _run(ctx):
         "plus the neighbourhood of every catalogue entry in each 16-bit field (raw RCP opcode = UnknownService pass-through, LP opcode / "
         "result, the four fields of the repeater broadcast status), and every value that differs from the catalogue (old, new, each +-1) in "
         "every field of every kind, as raw opcode, option type and S/N. "
+        " ROUND 6, READ-ONLY CALLS: observer-style calls found by introspection on the live objects (repr / str / len / bool / == / hash / copy / every attribute, debug(), get_* / is_* / has_* / match_* without auto-create, the log helpers, on every library object reachable) are interleaved into histories: the same history runs without and with them in fresh objects; each call must leave the deep picture of the objects, their class / module data and the stubs' counters unchanged, every answer, the final state and a final sweep through the whole catalogue (made, and itself checked, at the end of every such history) must be identical, and the model is driven with the history without the calls; reviewed exclusions (calls that advance by design) are listed in harness/ro_calls.py EXCLUDED. "
         "The oracle reads the datagram as it was built, not the library's parse; the model input is the "
         "abstraction of what the real HSTRP.from_bytes returns. Non-trivial = the datagram parses / an event; distinct = "
         "distinct (configuration, start state, operation sequence)"
@@ -1544,8 +1779,12 @@ def _run(ctx):
                  sample={"handlers": {n: list(c) for n, c in cfgs.items()}, "operations": length, "end_state": {n: w.state(w.h[n]) for n in w.h}} if length >= 40 else None)
         if len(pairs) > 300000:
             flush("hstrp.random")
-    Clock.uninstall()
     flush("hstrp.random")
+    # ---- round 6: identity ingredients that must not be coupled - exhaustive short histories over near-collisions
+    run_identity(ctx, pairs, flush)
+    # ---- round 6: the same kind of scripts with read-only calls in between
+    run_read_only(ctx, pairs, flush, enough)
+    Clock.uninstall()
     if CAPTURE.errors:
         ctx.fail("log-call-failed", {"script": []}, "a log call of the handler could not be formatted", expected=0, actual=CAPTURE.errors)
     ctx.count("mode:log-records-formatted", CAPTURE.records)
